@@ -209,7 +209,8 @@ class _MaskedArrayFunc(object):
 
         # transform back to numpy array
         if np.ma.isMaskedArray(result):
-            result = result.filled(np.nan)
+            fill = {'any': False, 'all': True}.get(self.__name__, np.nan) # identity of boolean reductions
+            result = result.filled(fill)
 
         return result
 
